@@ -23,15 +23,17 @@ ASSUMPTIONS = ["Source keeps no selection history: only its routing is compared"
 PROFILE = {"conveyors": False, "pack": 2, "finite": 2,
            "policies": ["FIRST_AVAILABLE", "ROUND_ROBIN", "ROUND_ROBIN", "RANDOM", "const", "callable", "callable", "generator", "generator"]}
 PROFILE_BAD = dict(PROFILE, bad_index=True, pack=0)
+# congested pack lines whose combiner / splitter chooses among several out-edges, mostly under FIRST_AVAILABLE
+PROFILE_PACK = dict(PROFILE, pack=10, finite=0, policies=["FIRST_AVAILABLE", "FIRST_AVAILABLE", "FIRST_AVAILABLE", "ROUND_ROBIN", "callable"])
 
 
 def examples(tier):
-    return 4000 if tier == "quick" else 80000
+    return 12000 if tier == "quick" else 160000
 
 
 def strategy(tier):
     from hypothesis import strategies as st
-    return st.one_of(gen_factory.factories(PROFILE), gen_factory.factories(PROFILE), gen_factory.factories(PROFILE),
+    return st.one_of(gen_factory.factories(PROFILE), gen_factory.factories(PROFILE), gen_factory.factories(PROFILE_PACK),
                      gen_factory.factories(PROFILE_BAD).map(lambda s: dict(s, bad_index_profile=True)))
 
 
